@@ -105,6 +105,17 @@ def build_tasks(chk, tier, ref):
         else: cfgs += [mt[(ti + 1) % 2]] + [cli[(ti * 3 + j) % len(cli)] for j in range(3)] + [r.choice(cli)]
         for c in cfgs:
             tasks.append({'op': 'merge', 'base': b, 'local': l, 'remote': rm, 'args': c, 'c09': True}); meta.append((name, c))
+    # one side deletes a mapping key / a cell / an output, the other side only makes transient edits to it (c09_cases, family 2);
+    # generated after everything above so that the random streams of the earlier families are what they were
+    for ti, (name, b, l, rm) in enumerate(c09_cases.transient_vs_delete_triples(r, tier)):
+        ks = [c04mod.declared_key(x) for x in (b, l, rm)]
+        if not (all(ks) and all(ref.is_valid(k, x) for k, x in zip(ks, (b, l, rm)))):
+            skipped += 1; continue
+        cfgs = [mt[0], mt[1]]
+        if tier != 'quick': cfgs += [cli[(ti * 3 + j) % len(cli)] for j in range(2)] + [r.choice(cli)]
+        elif ti % 2 == 0: cfgs += [r.choice(cli)]
+        for c in cfgs:
+            tasks.append({'op': 'merge', 'base': b, 'local': l, 'remote': rm, 'args': c, 'c09': True}); meta.append((name, c))
     return tasks, meta, skipped
 
 
@@ -154,7 +165,7 @@ def run(tier, seed):
     vc = c04_valcorr.run(chk, core.REPO, 600 if tier == 'quick' else 4000, 100 if tier == 'quick' else 500)
     chk.cov.update({
         'evaluations': judged, 'distinct_nontrivial': len(nontrivial),
-        'rule': 'merge_notebooks on valid notebook triples (hand-made per conflict kind at every minor, fixture triples, gennb.gen_triple with forced conflicts, triples whose three minors are pairwise different, concurrent inserts at one position of each notebook sequence -- identical, extending, unrelated -- followed by a removal on no / one / both sides) under mergetool (both transient settings) and sampled CLI configurations; every clause of the property judged on the returned decisions with nbdime\'s applier and an independent applier (pyspec.spec_patch, grouping by path); non-trivial = at least two decisions or a conflict, distinct by canonical JSON of (triple, configuration)',
+        'rule': 'merge_notebooks on valid notebook triples (hand-made per conflict kind at every minor, fixture triples, gennb.gen_triple with forced conflicts, triples whose three minors are pairwise different, concurrent inserts at one position of each notebook sequence -- identical, extending, unrelated -- followed by a removal on no / one / both sides; deletion of a transient cell-metadata flag / a cell / an execute_result output on one side against transient-only edits of it on the other side -- every flag, either side deleting, several flags incl. crossed roles, unrelated one-sided edits next to it, equal / pairwise different / upgraded minors, non-transient controls) under mergetool (both transient settings) and sampled CLI configurations; every clause of the property judged on the returned decisions with nbdime\'s applier and an independent applier (pyspec.spec_patch, grouping by path); non-trivial = at least two decisions or a conflict, distinct by canonical JSON of (triple, configuration)',
         'input_distribution': hist, 'merges_that_raised_(C03)': raised, 'invalid_input_triples_skipped': skipped,
         'traces_validated_against_impl': t1 + vc.get('validator_cases', 0) + mc.get('sortkey_cases', 0),
         'validator_on_decision_lists': t1, 'validator_on_decisions_mismatches': mism,
